@@ -74,7 +74,7 @@ def verify_translated(run, fid, py, text, contract, callees=None, vc_filter=None
 
     from vf import smt
 
-    rel, qual = fid.split(":")
+    rel, qual = fid.split(":", 1)
     try:
         fv = pyvc.FunctionVerifier(rel, qual, contract, SPEC, callees or {}, func=py, func_source=text)
         fv.used_lemmas = set()
@@ -86,7 +86,7 @@ def verify_translated(run, fid, py, text, contract, callees=None, vc_filter=None
         run.broken_ob(f"{fid}/zero-obligation-guard", "no obligations generated")
         return None
     vcs = [vc for vc in ctx.vcs if vc_filter is None or vc_filter(vc)]
-    results = smt.solve_many([(vc.name, pyvc.render(ctx, vc.hyps, vc.goal)) for vc in vcs], workers=10)
+    results = smt.solve_many([(vc.name, pyvc.render(ctx, vc.hyps, vc.goal)) for vc in vcs], workers=16)
     out = {}
     for vc in vcs:
         r = results[vc.name]
@@ -136,28 +136,38 @@ def check_binomial(run):
 
 
 # ------------------------------------------------------------------------------------------ kernels
+GC_FIELDS = ["num_digits", "gray_code", "n_ary_limits", "counter_chain", "offset_max", "offset"]
+GC_SEQ_FIELDS = ("gray_code", "n_ary_limits", "counter_chain")
+
+
+def _gc_fields(tr, obj):
+    return [tr.name(f"{obj}_{f}") for f in GC_FIELDS]
+
+
+def _gc_store(obj, fields):
+    return [ast.Name(id=f"{obj}_{f}", ctx=ast.Store()) for f in fields]
+
+
 def _gc_ctor(tr, nm, init):
-    """n_aryGrayCodeCounter gcode_counter(limits, n, initial_offset): modelled by its abstract state"""
+    """n_aryGrayCodeCounter gcode_counter(limits, n, initial_offset): a call of the constructor's VERIFIED contract
+    (contracts/C04_gray.py) on the object's field variables <obj>_<field>; the fields are unspecified before it"""
     args = [tr.ex(a) for a in (init.get("inner") or [])]
     if len(args) != 3:
         raise pyvc.Unsupported("n_aryGrayCodeCounter constructor with != 3 arguments")
-    S = ast.Store()
-    return [
-        ast.Assign(targets=[ast.Name(id=nm + "_gray", ctx=S)], value=tr.call("GC_ctor", *args)),
-        ast.Assign(targets=[ast.Name(id=nm + "_limits", ctx=S)], value=args[0]),
-        ast.Assign(targets=[ast.Name(id=nm + "_offset", ctx=S)], value=args[2]),
-        ast.Assign(targets=[ast.Name(id=nm + "_offset_max", ctx=S)], value=tr.call("GC_default_offset_max", args[0], args[1])),
-    ]
+    garbage = [tr.call("__new_int_array", tr.const(0)) if f in GC_SEQ_FIELDS else tr.call("__uninit") for f in GC_FIELDS]
+    tgt = ast.Tuple(elts=[ast.Name(id="_gc_r", ctx=ast.Store())] + _gc_store(nm, GC_FIELDS), ctx=ast.Store())
+    return [ast.Assign(targets=[tgt], value=tr.call("GC_ctor", *args, *garbage))]
 
 
 def _gc_set_offset_max(tr, n):
     callee = tr._strip(n["inner"][0])
-    obj = tr.ex(callee["inner"][0])
-    return [ast.Assign(targets=[ast.Name(id=obj.id + "_offset_max", ctx=ast.Store())], value=tr.ex(n["inner"][1]))]
+    obj = tr.ex(callee["inner"][0]).id
+    tgt = ast.Tuple(elts=[ast.Name(id="_gc_r", ctx=ast.Store())] + _gc_store(obj, ["offset_max"]), ctx=ast.Store())
+    return [ast.Assign(targets=[tgt], value=tr.call("GC_set_offset_max", tr.ex(n["inner"][1]), *_gc_fields(tr, obj)))]
 
 
 def _gc_get(tr, obj):
-    return tr.name(obj.id + "_gray")
+    return tr.name(obj.id + "_gray_code")
 
 
 def _gc_next(tr, n):
@@ -165,9 +175,9 @@ def _gc_next(tr, n):
     obj = tr.ex(callee["inner"][0]).id
     outs = [tr.ex(a).id for a in n["inner"][1:]]
     S = ast.Store()
-    tgt = ast.Tuple(elts=[ast.Name(id="gc_ret", ctx=S), ast.Name(id=obj + "_gray", ctx=S), ast.Name(id=obj + "_offset", ctx=S)]
-                    + [ast.Name(id=o, ctx=S) for o in outs], ctx=S)
-    call = tr.call("GC_next", tr.name(obj + "_gray"), tr.name(obj + "_offset"), tr.name(obj + "_offset_max"), tr.name(obj + "_limits"))
+    tgt = ast.Tuple(elts=[ast.Name(id="gc_ret", ctx=S)] + [ast.Name(id=o, ctx=S) for o in outs]
+                    + _gc_store(obj, ["gray_code", "counter_chain", "offset"]), ctx=S)
+    call = tr.call("GC_next", *[tr.name(o) for o in outs], *_gc_fields(tr, obj))
     return [ast.Assign(targets=[tgt], value=call)], ast.Compare(left=tr.name("gc_ret"), ops=[ast.NotEq()], comparators=[tr.const(0)])
 
 
@@ -233,13 +243,17 @@ def check_kernel_prefix(run, src_rel="src/permanent.cpp", name="permanent_cpp", 
 
 # -- spec functions of the kernels ---------------------------------------------------------------
 SPEC.funs.update({
-    "VSUM": ([SEQ], "Int"),
+    "VSUMN": ([SEQ, "Int"], "Int"),     # sum_{j<n} v[j]
     "LIMR": ([SEQ, "Int"], "Int"),      # prod_{j<k} (rows[j+1] + 1)
     "LIML": ([SEQ, "Int"], "Int"),      # prod_{j<k} limits[j]
     "PRODC": ([SEQ, SEQ, "Int"], "Int"),  # prod_{j<k} C(rows[j+1], g[j])
     "PMAX": ([SEQ, "Int"], "Int"),      # prod_{j<k} C(rows[j+1], rows[j+1] // 2)
 })
 LEMMAS.update({
+    "VSUMN_unfold": dict(params=[("v", SEQ), ("k", "Int")], lean="definition (recursive spec function)",
+                         formula="VSUMN(v, k) == ite(k <= 0, 0, VSUMN(v, k - 1) + v[k - 1])"),
+    "VSUMN_zero": dict(params=[("v", SEQ), ("n", "Int")], lean="ghost lemma C04_ghost.vsumn_zero (pyvc)",
+                       formula="implies(0 <= n and forall(lambda j: v[j] == 0, 0, n), VSUMN(v, n) == 0)"),
     "LIMR_unfold": dict(params=[("r", SEQ), ("k", "Int")], lean="definition (recursive spec function)",
                         formula="LIMR(r, k) == ite(k <= 0, 1, LIMR(r, k - 1) * (r[k] + 1))"),
     "LIML_unfold": dict(params=[("l", SEQ), ("k", "Int")], lean="definition (recursive spec function)",
@@ -269,27 +283,14 @@ LEMMAS.update({
 
 INT32_MAX = 2147483647
 GC_CALLEES = {
-    "Vector_sum": dict(params=[("v", SEQ)], returns="Int", ensures=["result == VSUM(v)"]),
+    # Vector<int>::sum(): contract verified on the real method (check_vector_sum)
+    "Vector_sum": dict(params=[("v", SEQ)], returns="Int",
+                       requires=[f"forall(lambda k: 0 - {INT32_MAX} <= VSUMN(v, k) and VSUMN(v, k) <= {INT32_MAX}, 0, len(v) + 1)"],
+                       ensures=["result == VSUMN(v, len(v))"]),
     "hardware_concurrency": dict(params=[], returns="Int", ensures=["0 <= result", "result <= 4294967295"]),
     "binomialCoeff": dict(params=BINOMIAL["params"], returns="Int", requires=BINOMIAL["requires"], ensures=["result == C(n, k)"]),
     "binomialCoeff64": dict(params=BINOMIAL64["params"], returns="Int", requires=BINOMIAL64["requires"], ensures=["result == C(n, k)"]),
-    "GC_default_offset_max": dict(params=[("limits", SEQ), ("n", "Int")], returns="Int", ensures=[]),
-    # n_aryGrayCodeCounter(limits, n, t): ASSUMED contract of the class (bounded-checked, see C04_gray)
-    "GC_ctor": dict(params=[("limits", SEQ), ("n", "Int"), ("t", "Int")], returns=SEQ,
-                    requires=["n == len(limits)", "n >= 1", "forall(lambda j: limits[j] >= 1, 0, n)",
-                              "0 <= t", "t <= LIML(limits, n) - 1", "t <= 2147483647"],
-                    ensures=["len(result) == n", "forall(lambda j: 0 <= result[j] and result[j] < limits[j], 0, n)"]),
-    "GC_next": dict(params=[("gray", SEQ), ("offset", "Int"), ("offset_max", "Int"), ("limits", SEQ)], returns="Int",
-                    outs=[("gray2", SEQ), ("offset2", "Int"), ("ci", "Int"), ("prev", "Int"), ("val", "Int")],
-                    requires=["len(gray) == len(limits)", "forall(lambda j: 0 <= gray[j] and gray[j] < limits[j], 0, len(gray))"],
-                    ensures=[
-                        "result == 0 or result == 1", "iff(result == 1, offset >= offset_max)", "len(gray2_out) == len(gray)",
-                        "implies(result == 1, offset2_out == offset and forall(lambda j: gray2_out[j] == gray[j], 0, len(gray)))",
-                        "implies(result == 0, offset2_out == offset + 1 and 0 <= ci_out and ci_out < len(gray) and "
-                        "prev_out == gray[ci_out] and val_out == gray2_out[ci_out] and "
-                        "(val_out == prev_out + 1 or val_out == prev_out - 1) and 0 <= val_out and val_out < limits[ci_out] and "
-                        "forall(lambda j: implies(j != ci_out, gray2_out[j] == gray[j]), 0, len(gray)))",
-                    ]),
+    # GC_ctor / GC_set_offset_max / GC_next: derived from the verified method contracts (contracts/C04_gray.py:KERNEL_CALLEES)
 }
 
 N_ = "(len(rows) - 1)"
@@ -313,7 +314,7 @@ def suffix_contract(bc_max):
 
 SUFFIX = dict(
     params=[("A_rows", "Int"), ("A_cols", "Int"), ("rows", SEQ), ("cols", SEQ), ("RMAX", "Int")], returns="Int",
-    raises={"CppException": "VSUM(rows) != VSUM(cols)"},
+    raises={"CppException": "VSUMN(rows, len(rows)) != VSUMN(cols, len(cols))"},
     requires=[
         "1 <= A_rows and A_rows <= 1000001", U64.format("A_cols"), "len(rows) == A_rows", "len(cols) == A_cols",
         "forall(lambda j: 0 <= rows[j] and rows[j] <= RMAX, 0, len(rows))", "0 <= RMAX and RMAX <= 46340",
@@ -322,6 +323,9 @@ SUFFIX = dict(
         f"forall(lambda k: 1 <= LIMR(rows, k) and LIMR(rows, k) <= {INT32_MAX}, 0, len(rows))",
         "forall(lambda k: 1 <= PMAX(rows, k) and PMAX(rows, k) * (RMAX + 1) <= {BC_MAX}, 0, len(rows))",
         f"len(rows) * (RMAX + 1) <= {INT32_MAX}",
+        # the totals (and every partial sum) of the multiplicities fit an int: Vector<int>::sum() accumulates in int
+        f"forall(lambda k: 0 <= VSUMN(rows, k) and VSUMN(rows, k) <= {INT32_MAX}, 0, len(rows) + 1)",
+        f"forall(lambda k: 0 <= VSUMN(cols, k) and VSUMN(cols, k) <= {INT32_MAX}, 0, len(cols) + 1)",
     ],
     ensures=[],
     loops={
@@ -330,7 +334,8 @@ SUFFIX = dict(
         "1": dict(invariant=["0 <= i", "i <= A_rows * A_cols"]),
         "2": dict(invariant=["0 <= i", "i <= n_ary_size", "len(n_ary_limits) == n_ary_size",
                              "forall(lambda j: n_ary_limits[j] == rows[j + 1] + 1, 0, i)"]),
-        "3": dict(invariant=["1 <= i", "i <= n_ary_size", "idx_max == LIMR(rows, i)", "idx_max == LIML(n_ary_limits, i)", "idx_max >= 1"]),
+        "3": dict(invariant=["1 <= i", "i <= n_ary_size", "idx_max == LIMR(rows, i)", "idx_max == LIML(n_ary_limits, i)", "idx_max >= 1",
+                             "forall(lambda k: LIML(n_ary_limits, k) == LIMR(rows, k), 0, i + 1)"]),
         "4": dict(invariant=["0 <= job_idx", "job_idx <= concurrency"]),
         "4.0": dict(invariant=["0 <= i", "i <= n_ary_size", "binomial_coeff == PRODC(rows, gcode, i)", "binomial_coeff >= 0",
                                "minus_signs_all >= 0", "minus_signs_all <= i * RMAX", "len(gcode) == n_ary_size",
@@ -338,10 +343,16 @@ SUFFIX = dict(
         "4.0.0": dict(invariant=["0 <= j", "j <= len(cols)"]),
         "4.1": dict(invariant=["0 <= i", "i <= len(cols)"]),
         "4.1.0": dict(invariant=["0 <= j", "j <= cols[i]"]),
-        "4.2": dict(invariant=["initial_offset + 1 <= i", "i <= offset_max + 1", "len(gcode_counter_gray) == n_ary_size",
-                               "forall(lambda j: 0 <= gcode_counter_gray[j] and gcode_counter_gray[j] < gcode_counter_limits[j], 0, n_ary_size)",
-                               "binomial_coeff == PRODC(rows, gcode_counter_gray, n_ary_size)", "binomial_coeff >= 0",
-                               "parity == 1 or parity == 0 - 1"]),
+        "4.2": dict(invariant=["initial_offset + 1 <= i", "i <= offset_max + 1", "len(gcode_counter_gray_code) == n_ary_size",
+                               "forall(lambda j: 0 <= gcode_counter_gray_code[j] and gcode_counter_gray_code[j] < gcode_counter_n_ary_limits[j], 0, n_ary_size)",
+                               "binomial_coeff == PRODC(rows, gcode_counter_gray_code, n_ary_size)", "binomial_coeff >= 0",
+                               "parity == 1 or parity == 0 - 1",
+                               # the counter object satisfies its class invariant (opaque here; contracts/C04_gray.py)
+                               "GCINV(gcode_counter_num_digits, gcode_counter_gray_code, gcode_counter_counter_chain, "
+                               "gcode_counter_n_ary_limits, gcode_counter_offset, gcode_counter_offset_max)",
+                               "gcode_counter_num_digits == n_ary_size", "len(gcode_counter_counter_chain) == n_ary_size",
+                               "len(gcode_counter_n_ary_limits) == n_ary_size", "gcode_counter_offset_max <= 9223372036854775806",
+                               "forall(lambda j: gcode_counter_n_ary_limits[j] == n_ary_limits[j], 0, n_ary_size)"]),
         "4.2.0": dict(invariant=["0 <= j", "j <= len(cols)"]),
         "4.2.0.0": dict(invariant=["0 <= k", "k <= cols[j]"]),
     },
@@ -365,19 +376,19 @@ SUFFIX = dict(
                             "use('C_pos', rows[i + 1], gcode[i])", "use('C_out', rows[i + 1], gcode[i])",
                             "use('PMAX_unfold', rows, i + 1)", "use('mul_le', i + 1, RMAX, len(rows), RMAX + 1)",
                             "use('le_of_mul_le', PMAX(rows, i), C(rows[i + 1], rows[i + 1] // 2), {BC_MAX})"],
-        "loop[4.2].before": ["use('PRODC_le_PMAX', rows, gcode_counter_gray, n_ary_size)"],
-        "loop[4.2].start": ["use('PRODC_le_PMAX', rows, gcode_counter_gray, n_ary_size)", "let('gray_old', gcode_counter_gray)"],
+        "loop[4.2].before": ["use('PRODC_le_PMAX', rows, gcode_counter_gray_code, n_ary_size)"],
+        "loop[4.2].start": ["use('PRODC_le_PMAX', rows, gcode_counter_gray_code, n_ary_size)", "let('gray_old', gcode_counter_gray_code)"],
     },
     ghost_after={
-        "gc_ret, gcode_counter_gray": [
-            "use('PRODC_le_PMAX', rows, gcode_counter_gray, n_ary_size)",
-            "use('PRODC_update', rows, gray_old, gcode_counter_gray, changed_index, n_ary_size)",
+        "gc_ret, changed_index": [
+            "use('PRODC_le_PMAX', rows, gcode_counter_gray_code, n_ary_size)",
+            "use('PRODC_update', rows, gray_old, gcode_counter_gray_code, changed_index, n_ary_size)",
             "use('mul_le', binomial_coeff, prev_value, PMAX(rows, n_ary_size), RMAX + 1)",
             "use('mul_le', binomial_coeff, rows[changed_index + 1] - prev_value, PMAX(rows, n_ary_size), RMAX + 1)",
             # Pascal-row absorption: C(r, v+1) (v+1) = C(r, v) (r - v), at v = min(prev, value)
             "use('absorb', rows[changed_index + 1], min(prev_value, value))",
             "use('C_pos', rows[changed_index + 1], prev_value)", "use('C_pos', rows[changed_index + 1], value)",
-            "let('r_', rows[changed_index + 1])", "let('P1', binomial_coeff)", "let('P2', PRODC(rows, gcode_counter_gray, n_ary_size))",
+            "let('r_', rows[changed_index + 1])", "let('P1', binomial_coeff)", "let('P2', PRODC(rows, gcode_counter_gray_code, n_ary_size))",
             "let('c_p', C(r_, prev_value))", "let('c_v', C(r_, value))",
             "check(implies(gc_ret == 0, P2 * c_p == P1 * c_v))",
             "check(implies(gc_ret == 0, implies(value == prev_value - 1, c_p * prev_value == c_v * (r_ - value))))",
@@ -420,7 +431,141 @@ def check_kernel_suffix(run, src_rel="src/permanent.cpp", name="permanent_cpp", 
     run.function(fid, text, dropped_float_statements=tr.dropped, bounds_obligations_from_dropped=tr.bounds,
                  accumulator_type=bc_type)
     run.notes.append(f"{fid}: binomial accumulator is `{bc_type}`; exactness pre-condition PMAX(rows) * (RMAX + 1) <= {bc_max}")
+    from contracts import C04_gray
     callees = dict(GC_CALLEES)
+    callees.update(C04_gray.KERNEL_CALLEES)
     if "long (long" in getattr(tr, "call_types", {}).get("binomialCoeff", ""):
         callees["binomialCoeff"] = GC_CALLEES["binomialCoeff64"]
     return verify_translated(run, fid, suf, text, suffix_contract(bc_max), callees, vc_filter=vc_filter), bc_max
+
+
+# ------------------------------------------------------------------------------------------ permanent_laplace_cpp
+def _is_mtx2(s):
+    return isinstance(s, ast.Assign) and ast.unparse(s.targets[0]) == "mtx2_rows"
+
+
+EARLY = ("(old(A_rows) == 0 or old(A_cols) == 0 or VSUMN(old(rows), len(old(rows))) == 0 or VSUMN(old(cols), len(old(cols))) == 0)")
+LAPLACE_PREFIX = dict(
+    PREFIX,       # same row-splitting code and loop structure as permanent_cpp, preceded by the sums and the early return
+    requires=PREFIX["requires"] + [
+        f"forall(lambda k: 0 <= VSUMN(rows, k) and VSUMN(rows, k) <= {INT32_MAX}, 0, len(rows) + 1)",
+        f"forall(lambda k: 0 <= VSUMN(cols, k) and VSUMN(cols, k) <= {INT32_MAX}, 0, len(cols) + 1)"],
+    ensures=[
+        # nothing changed (early return: empty matrix or no particles) ...
+        "(len(rows) == len(old(rows)) and A_rows == old(A_rows) and forall(lambda j: rows[j] == old(rows)[j], 0, len(rows))) or "
+        # ... or one unit of the smallest non-zero row was split off as row 0
+        "(len(rows) == len(old(rows)) + 1 and rows[0] == 1 and A_rows == old(A_rows) + 1 and "
+        " forall(lambda j: 0 <= rows[j + 1] and rows[j + 1] <= old(rows)[j], 0, len(old(rows))))",
+        "A_cols == old(A_cols)", "len(rows) == A_rows",
+        # the kernel proper is entered only with at least two rows (its n_ary_limits[0] exists)
+        f"implies(not {EARLY}, A_rows >= 2 and rows[0] == 1)",
+    ],
+    ghost={"loop[1].before": ["use('VSUMN_zero', rows, len(rows))"], "exit": ["use('VSUMN_zero', old(rows), len(old(rows)))"]},
+)
+
+
+def _renumber(d, mapping):
+    """loop keys / ghost points of SUFFIX re-keyed for the loop ordinals of the Laplace kernel"""
+    out = {}
+    for k, v in d.items():
+        for a, b in mapping:
+            if k == a or k.startswith(a + "."):
+                out[b + k[len(a):]] = v
+                break
+            if k.startswith(f"loop[{a}]") or k.startswith(f"loop[{a}."):
+                out["loop[" + b + k[len("loop[" + a):]] = v
+                break
+    return out
+
+
+_LAP_MAP = [("4.2", "3.3"), ("4.0", "3.0"), ("4", "3"), ("3", "2"), ("2", "1"), ("1", "0")]
+_BOUND = lambda v, hi: dict(invariant=[f"0 <= {v}", f"{v} <= {hi}"])
+LAPLACE = dict(
+    params=SUFFIX["params"], returns="Int",
+    requires=["2 <= A_rows and A_rows <= 1000001"] + list(SUFFIX["requires"][1:]),
+    ensures=[],
+    loops=dict(
+        _renumber({k: v for k, v in SUFFIX["loops"].items() if k in ("1", "2", "3", "4", "4.0", "4.0.0", "4.2")}, _LAP_MAP),
+        **{
+            "3.1": _BOUND("l", "len(cols)"), "3.1.0": _BOUND("i", "len(cols)"),
+            "3.1.0.0": dict(invariant=["0 <= j", "j <= cols[i]"]),
+            "3.2": _BOUND("i", "len(cols)"),
+            "3.3.0": _BOUND("j", "len(cols)"),
+            "3.3.1": _BOUND("l", "len(cols)"), "3.3.1.0": _BOUND("k", "len(cols)"),
+            "3.3.1.0.0": dict(invariant=["0 <= j", "j <= cols[k]"]),
+            "3.3.2": _BOUND("k", "len(cols)"),
+            "4": _BOUND("i", "len(cols)"), "4.0": _BOUND("job_idx", "concurrency"),
+        }),
+    ghost=dict(_renumber({k: v for k, v in SUFFIX["ghost"].items() if not k.startswith("loop[2]")}, _LAP_MAP)),
+    ghost_after=SUFFIX["ghost_after"],
+)
+# thread_results has `concurrency` rows of len(cols) entries: row job_idx is in bounds
+LAPLACE["ghost"]["loop[3.2].before"] = ["use('mul_le', job_idx + 1, len(cols), concurrency, len(cols))"]
+LAPLACE["ghost"]["loop[3.3.2].before"] = ["use('mul_le', job_idx + 1, len(cols), concurrency, len(cols))"]
+LAPLACE["ghost"]["loop[4.0].start"] = ["use('mul_le', job_idx + 1, len(cols), concurrency, len(cols))"]
+LAPLACE["loops"]["3.3"] = dict(invariant=SUFFIX["loops"]["4.2"]["invariant"] + ["job_idx_uint == job_idx"])
+
+
+def laplace_contract(bc_max):
+    d = dict(LAPLACE)
+    d["requires"] = [r.replace("{BC_MAX}", str(bc_max)) for r in LAPLACE["requires"]]
+    d["ghost"] = {k: [g.replace("{BC_MAX}", str(bc_max)) for g in v] for k, v in LAPLACE["ghost"].items()}
+    return d
+
+
+def check_laplace(run, vc_filter=None, src_rel="src/permanent_laplace.cpp", name="permanent_laplace_cpp",
+                  type_prefix="Vector<std::complex<double>> ("):
+    """permanent_laplace_cpp<double>: row-splitting prefix and kernel, same contracts as permanent_cpp"""
+    from contracts import C04_gray
+    fid_p = f"{src_rel}:{name}<double>/row-splitting-prefix"
+    fid_k = f"{src_rel}:{name}<double>/kernel"
+    try:
+        py, tr = translate_kernel(src_rel, name, type_prefix)
+        pre = cppvc.slice_function(py, None, _is_mtx2, name=name + "_prefix", params=["A_rows", "A_cols", "rows", "cols"])
+        suf = cppvc.slice_function(py, _is_mtx2, None, name=name + "_kernel", params=["A_rows", "A_cols", "rows", "cols"])
+        text = ast.unparse(suf)
+        bc_max, bc_type = accumulator_max(text)
+    except (pyvc.Unsupported, StopIteration) as e:
+        run.undecided_ob(f"{fid_k}/extraction", "cppvc", "clang-ast", f"{type(e).__name__}: {e}")
+        return None
+    callees = dict(GC_CALLEES)
+    callees.update(C04_gray.KERNEL_CALLEES)
+    if "long (long" in getattr(tr, "call_types", {}).get("binomialCoeff", ""):
+        callees["binomialCoeff"] = GC_CALLEES["binomialCoeff64"]
+    out = {}
+    if vc_filter is None:
+        run.function(fid_p, ast.unparse(pre), dropped_float_statements=tr.dropped)
+        out.update(verify_translated(run, fid_p, pre, ast.unparse(pre), LAPLACE_PREFIX, callees) or {})
+    run.function(fid_k, text, dropped_float_statements=tr.dropped, bounds_obligations_from_dropped=tr.bounds, accumulator_type=bc_type)
+    res = verify_translated(run, fid_k, suf, text, laplace_contract(bc_max), callees, vc_filter=vc_filter)
+    if res is None:
+        return None
+    out.update(res)
+    return out, bc_max
+
+
+# ------------------------------------------------------------------------------------------ Vector<int>::sum
+VECTOR_SUM = dict(
+    params=[("f_data", SEQ), ("f_length", "Int")], returns="Int",
+    requires=["len(f_data) == f_length", "f_length <= 18446744073709551615",      # type invariant of the size_t field
+              f"forall(lambda k: 0 - {INT32_MAX} <= VSUMN(f_data, k) and VSUMN(f_data, k) <= {INT32_MAX}, 0, f_length + 1)"],
+    ensures=["result == VSUMN(f_data, f_length)"],
+    loops={"0": dict(invariant=["0 <= i", "i <= f_length", "result == VSUMN(f_data, i)"])},
+    ghost={"loop[0].before": ["use('VSUMN_unfold', f_data, 0)"], "loop[0].start": ["use('VSUMN_unfold', f_data, i + 1)"]},
+)
+
+
+def check_vector_sum(run):
+    fid = "src/matrix.hpp:Vector<int>::sum"
+    try:
+        docs = cppvc.clang_ast("src/permanent.cpp", "Vector")
+        node = cppvc.find_function(docs, "sum", "int (", "Vector")
+        py, tr = cppvc.translate(node, {})
+    except (pyvc.Unsupported, StopIteration) as e:
+        run.undecided_ob(f"{fid}/extraction", "cppvc", "clang-ast", f"{type(e).__name__}: {e}")
+        return
+    py.args.args = [ast.arg(arg="f_data"), ast.arg(arg="f_length")]
+    ast.fix_missing_locations(py)
+    text = ast.unparse(py)
+    run.function(fid, text)
+    report(run, verify_translated(run, fid, py, text, VECTOR_SUM, {}))
